@@ -26,6 +26,28 @@ CHECKS = {
          "shims installed as svr_threads.threading, TLC. Bounded: pool sizes 1..3, <=4 jobs, preemption bound 1 (quick) / 2 (thorough).",
     technique="TLA+/PlusCal spec + TLC model checking; deterministic schedule exploration of the real threads; TLC trace validation (linearizability search)",
     ref="6/C18"),
+ "C14": dict(
+    category="model_checking",
+    text="NameServer.tla defines the name server as a map (Apply = exact result of every operation; prefixes and regex kinds with literal "
+         "sequence semantics) and is model-checked by TLC; TLC enumerates the whole operation alphabet (534 operations over an adversarial "
+         "name pool: case pair, SQL wildcards, regex metacharacter, non-ASCII, empty, reserved) and random histories (-simulate); each history "
+         "runs on a real NameServer over MemoryStorage and over SqlStorage with full listings after every step, reopen points, and every "
+         "sqlite statement of mutating operations as an injected failure point; TLC validates every trace against the model (Trace_NS.tla).",
+    note="Trusted: the name/tag/uri concretisation tables, the sqlite3 shim that injects OperationalError at the k-th execute()/commit(), TLC. "
+         "One selector per remove/list call; histories bounded (single operations on two rich states exhaustively, random histories of length 10-14).",
+    technique="TLA+ spec + TLC; TLC-generated operation histories replayed on both storage back-ends with fault injection; TLC trace validation (monitor)",
+    ref="6/C14"),
+ "C15": dict(
+    category="model_checking",
+    text="NameServerImpl.tla (PlusCal, statement-level register/remove with the re-entrant lock) model-checked for one-winner / counts-sum-to-one / "
+         "no-internal-error; TLC enumerates all scenarios (initial state x one operation per thread, 2 and 3 threads); the real NameServer runs "
+         "them in real threads under a deterministic line-level scheduler (preemption-bounded DFS, then seeded random); every distinct "
+         "call/return history is checked by TLC for linearizability against the atomic map of NameServer.tla (Trace_NSLin.tla places each effect "
+         "between call and return).",
+    note="Trusted: sys.settrace line events as yield points (GIL excludes finer races), the cooperative RLock shim, TLC. Bounded: 2-3 threads, one "
+         "operation each, two shared names, preemption bound 2/1 (quick) or 3/2 (thorough); sqlite back-end only in the thorough tier.",
+    technique="TLA+/PlusCal spec + TLC; deterministic schedule exploration of real threads; TLC linearizability search over recorded histories",
+    ref="6/C15"),
 }
 NOT_YET = {}
 ALL = ["C%02d" % i for i in range(1, 21)]
